@@ -165,8 +165,8 @@ RT_MAP_ENUM = "map enum value must have zero number for the first value"
 def run(ctx):
     rng = ctx.rng
     T = Tables(featgen.read_tables(REPO))
-    nprog = ctx.budget(150, 4000)
-    ninj = ctx.budget(100, 3000)
+    nprog = ctx.budget(150, 1200)
+    ninj = ctx.budget(100, 800)
     ctx.rule = ("programs: hand-written corpus + the repository's editions fixtures + %d generated multi-file programs (proto2/proto3/edition 2023; "
                 "feature overrides wherever the option targets allow: file, message(json_format), field, enum; messages nested 0-4 deep; maps, groups, "
                 "oneofs, proto3 optional, packed options, extensions at file and message scope, *_UNKNOWN feature values) + %d variants re-fed as descriptor "
@@ -272,7 +272,8 @@ def run(ctx):
                 ctx.violation("runtime-rejects-map-enum-first-value-nonzero",
                               "protodesc.NewFile rejects the compiled file: " + o["rterr"], replay_of(c, {"runtime_error": o["rterr"]}))
             elif ("may only use open enums" in o["rterr"] or "open semantics" in o["rterr"]) and \
-                    any(e["k"] == "enum" and not et_known(e["in"]) for e in elems):
+                    (any(e["k"] == "enum" and not et_known(e["in"]) for e in elems)
+                     or any("ENUM_TYPE_UNKNOWN" in t for t in c["files"].values())):
                 ctx.violation("is-closed-enum-type-unknown", "an enum whose enum_type resolves to ENUM_TYPE_UNKNOWN is open for the linker and closed "
                               "for the runtime; protodesc.NewFile rejects the compiled file: " + o["rterr"], replay_of(c, {"runtime_error": o["rterr"]}))
             else:
